@@ -9,6 +9,7 @@ import (
 	"log"
 	"net"
 	"os"
+	"runtime"
 	"sort"
 	"strings"
 	"time"
@@ -283,4 +284,69 @@ func envInt(name string, def int) int {
 		return n
 	}
 	return def
+}
+
+// serverQuiescent reports whether every goroutine that is executing code of
+// the server package is parked waiting for input (select, channel receive,
+// network). It is the barrier the history-driven checks use between steps:
+// handlers start background goroutines (go DeleteSubscription, go
+// DeleteMonitoredItem, go ChangeNotification, Subscription.run exiting) whose
+// effects belong to the step that started them. This is a state predicate,
+// not a timer.
+var stackBuf = make([]byte, 1<<16)
+
+func serverQuiescent() (bool, string) {
+	var buf []byte
+	for {
+		n := runtime.Stack(stackBuf, true)
+		if n < len(stackBuf) {
+			buf = stackBuf[:n]
+			break
+		}
+		stackBuf = make([]byte, 2*len(stackBuf))
+	}
+	for _, g := range strings.Split(string(buf), "\n\n") {
+		if !strings.Contains(g, "github.com/gopcua/opcua/server.") {
+			continue
+		}
+		head := g
+		if i := strings.IndexByte(g, '\n'); i > 0 {
+			head = g[:i]
+		}
+		// "goroutine 12 [select]:" / "[IO wait, 2 minutes]:" / "[chan receive]:"
+		st := head
+		if i := strings.IndexByte(head, '['); i >= 0 {
+			st = head[i+1:]
+		}
+		if i := strings.IndexAny(st, ",]"); i >= 0 {
+			st = st[:i]
+		}
+		switch st {
+		case "select", "chan receive", "IO wait", "select (no cases)":
+			continue
+		}
+		return false, head
+	}
+	return true, ""
+}
+
+// waitQuiescent spins until the server is quiescent; false after the watchdog.
+func waitQuiescent() (bool, string) {
+	deadline := time.Now().Add(watchdog)
+	why := ""
+	for i := 0; ; i++ {
+		ok, w := serverQuiescent()
+		if ok {
+			return true, ""
+		}
+		why = w
+		if time.Now().After(deadline) {
+			return false, why
+		}
+		if i < 50 {
+			runtime.Gosched()
+		} else {
+			time.Sleep(200 * time.Microsecond)
+		}
+	}
 }
